@@ -447,8 +447,12 @@ func writeEvidence(def *CheckDef, tier string, seed int, cov map[string]interfac
 	}
 	ev := evidence{PropertyID: def.ID, Tier: tier, Seed: seed, Level: "model_checking", Coverage: cov, Assumptions: def.Assumptions, WallS: wall.Seconds(), Violations: violations}
 	b, _ := json.MarshalIndent(ev, "", " ")
-	os.MkdirAll(filepath.Join(verifDir, "evidence"), 0755)
-	os.WriteFile(filepath.Join(verifDir, "evidence", def.ID+".json"), b, 0644)
+	evDir := filepath.Join(verifDir, "evidence")
+	if d := os.Getenv("VERIF_EVIDENCE_DIR"); d != "" {
+		evDir = d // experiments against modified trees (seeded changes) must not overwrite the committed evidence
+	}
+	os.MkdirAll(evDir, 0755)
+	os.WriteFile(filepath.Join(evDir, def.ID+".json"), b, 0644)
 }
 
 func trimModel(m map[string]uint64) map[string]uint64 {
